@@ -791,7 +791,7 @@ pub fn run(tier: Tier) -> i32 {
         "exhaustive": true,
         "rule": "(a) every string of length <= k over 21 characters; (b) every sequence of <= k atoms over the full vocabulary plus {\"\",-,--,-a,a-} joined by space and by hyphen; (c) a fixed smoke list of long inputs (NOT an exhaustive space); (h) every text of <= 4 words over {a word-like string literal of the current source tree that no alphabet knows, ordinary word, one, unit, tens, ambiguous words} containing that literal; (g) every sequence of <= 4 (thorough 5) words over nine, tens, hundred, one and the scale words; (i) every text of <= 3 tokens over 9 class words + 16 digit-like tokens (ASCII figures, Arabic-Indic / Devanagari / fullwidth / mathematical digits, superscripts, vulgar fractions, Roman and circled numerals, a CJK numeral, 1e5, 0x1F, 3.5) containing one of the latter, and of 4 tokens over 4 words + 8 of them; (j) every text of <= 4 (thorough 5) words over the first 16 class symbols and of 5 (6) words over the first 10, plus leading-zero runs of 1..=12 in front of every word of the full vocabulary; (d) every token stream of <= k tokens over class words and compound fragments, each plain, '~' or '!' hinted, through find_numbers, find_numbers_iter and replace_numbers_in_stream; each x 7 languages x {text2digits, replace_numbers_in_text, find_numbers, find_numbers_iter drained, replace_numbers_in_stream} x thresholds; get_interpreter_for on the strings of (a)",
         "characters": CHARS.iter().map(|c| format!("U+{:04X}", *c as u32)).collect::<Vec<_>>(),
-        "bounds": {"a_max_len": tier.pick(4, 6), "a_len6_thresholds": "0, NaN only", "b_max_atoms": tier.pick(2, 3), "c_repetitions": tier.pick(3000, 20_000), "e_tokens": deep_n, "e_stack_kib": deep_kib, "e_short_streams": "dev-profile build: every stream of <= 3 of 11 class words (<= 4 of the first 7) per language x thresholds {0, 10, 50, 1000, inf, NaN, -1} x 4 entry points"},
+        "bounds": {"a_max_len": tier.pick(4, 6), "a_len6_thresholds": "0, NaN only", "b_max_atoms": tier.pick(2, 3), "c_repetitions": tier.pick(3000, 20_000), "e_tokens": deep_n, "e_stack_kib": deep_kib, "e_short_streams": "dev-profile build: every stream of <= 3 of 11 class words (<= 4 of the first 7) per language, and every stream of <= 3 of 8 compound / hyphen-group words with their neighbours, x thresholds {0, 10, 50, 1000, inf, NaN, -1} x 4 entry points"},
         "thresholds": THRS.iter().map(|t| thr_name(*t)).collect::<Vec<_>>(),
         "child_processes": jobs.len(),
     });
